@@ -2,4 +2,4 @@
 
 package engine
 
-func verifTick() {}
+func verifTick(*SearchEngineState) {}
